@@ -9,7 +9,7 @@ import sys
 ROOT = os.path.join(os.path.dirname(os.path.dirname(os.path.abspath(__file__))), "coq", "theories")
 
 
-STANDALONE = {"AckProofs", "LocksProofs", "LedgerProofs", "LedgerUpdProofs", "PoolProofs", "WindowProofs", "MicroProofs", "MicroStats", "MicroBound", "MicroBal", "MicroAll", "MicroProv", "MicroLedger", "MicroFifo", "MicroAck", "MicroPut", "MicroCharged", "MicroFlow", "PrecondProofs"}
+STANDALONE = {"AckProofs", "LocksProofs", "LedgerProofs", "LedgerUpdProofs", "PoolProofs", "WindowProofs", "MicroProofs", "MicroStats", "MicroBound", "MicroBal", "MicroAll", "MicroProv", "MicroLedger", "MicroFifo", "MicroAck", "MicroPut", "MicroCharged", "MicroFlow", "MicroHeld", "PrecondProofs"}
 
 
 def statements(modname):
@@ -92,7 +92,8 @@ spec("C17_precond", "The documented preconditions: what the builders accept is w
     ("PrecondProofs", "accepted_config_is_wf", None), ("PrecondProofs", "accepted_upsert_iff_valid", None), ("PrecondProofs", "accepted_put_weight_iff_valid", None),
 ])
 M = "MicroProofs"
-spec("C05_micro", "Accounting under every interleaving of the micro steps (calls, worker commands and shutdown() split at every schedule point)", [M, "MicroLedger", "MicroCharged", "MicroFlow"], [
+spec("C05_micro", "Accounting under every interleaving of the micro steps (calls, worker commands and shutdown() split at every schedule point)", [M, "MicroLedger", "MicroCharged", "MicroFlow", "MicroHeld"], [
+    ("MicroHeld", "micro_held_is_charged_all", None), ("MicroHeld", "micro_store_ids_distinct_all", None), ("MicroHeld", "micro_index_lists_used_ids_all", None),
     ("MicroLedger", "micro_ledger_exact_all", None), ("MicroLedger", "micro_ids_fresh_all", None), ("MicroFlow", "micro_ids_flow_all", None),
     ("MicroCharged", "micro_charged_is_stored_all", None), ("MicroCharged", "micro_charged_is_stored_quiet", None),
     (M, "mcall_atomic", None), (M, "mdelete_atomic", None), (M, "mput_atomic", None), (M, "minv_step", None), (M, "minv_run", None),
